@@ -1,6 +1,257 @@
 import Fabio.Driver.Proto
+import Fabio.Model.C07
+import Fabio.Model.C07Spec
 namespace Fabio.Driver.C07
-open Lean Fabio.Driver
+open Lean Fabio.Driver Fabio.Model.C07 Fabio.Model.C07Spec
 
-def streams : List (String × Handler) := []
+/-! JSON glue for the C07 streams (`c07.url`, `c07.body`, `c07.noroute`, `c07.escape`). -/
+
+def str (j : Json) (k : String) : Except String String := j.getObjValAs? String k
+def bytes (j : Json) (k : String) : Except String Bytes := ofStr <$> str j k
+def bool (j : Json) (k : String) : Except String Bool := j.getObjValAs? Bool k
+def int (j : Json) (k : String) : Except String Int := j.getObjValAs? Int k
+def jb (b : Bytes) : Json := Json.str (toStr b)
+
+def arr (j : Json) (k : String) : Except String (Array Json) :=
+  match j.getObjVal? k with
+  | .ok (Json.arr a) => .ok a
+  | .ok Json.null => .ok #[]
+  | .ok _ => .error s!"{k}: not an array"
+  | .error _ => .ok #[]
+
+/-- `[[name, value], …]` -/
+def pairs (j : Json) (k : String) : Except String (List (String × String)) := do
+  let a ← arr j k
+  a.toList.mapM fun e =>
+    match e with
+    | Json.arr #[Json.str n, Json.str v] => .ok (n, v)
+    | _ => .error s!"{k}: not a pair"
+
+/-- `[{"k": name, "v": [values…]}, …]` flattened to pairs -/
+def kvPairs (j : Json) (k : String) : Except String (List (String × String)) := do
+  let a ← arr j k
+  let ls ← a.toList.mapM fun e => do
+    let n ← str e "k"
+    let vs ← arr e "v"
+    vs.toList.mapM fun v => match v with
+      | Json.str s => .ok (n, s)
+      | _ => .error "value not a string"
+  return ls.flatten
+
+/-- group pairs by name (values in arrival order), names sorted: the canonical form of a header block -/
+def group (l : List (String × String)) : List (String × List String) :=
+  let ins (acc : List (String × List String)) (kv : String × String) : List (String × List String) :=
+    let rec go : List (String × List String) → List (String × List String)
+      | [] => [(kv.1, [kv.2])]
+      | (k, vs) :: rest =>
+        if k = kv.1 then (k, vs ++ [kv.2]) :: rest
+        else if kv.1 < k then (kv.1, [kv.2]) :: (k, vs) :: rest
+        else (k, vs) :: go rest
+    go acc
+  l.foldl ins []
+
+def groupJson (l : List (String × String)) : Json :=
+  Json.arr ((group l).map fun (k, vs) => Json.mkObj [("k", k), ("v", Json.arr (vs.map Json.str).toArray)]).toArray
+
+def isPanic (j : Json) : Bool := (j.getObjVal? "panic").toOption.isSome
+
+/-! ### c07.url -/
+
+def notCompared : List String := hopNames ++ forwardingNames ++ framingNames
+
+def urlH : Handler := fun inp impl => do
+  let strip ← bytes inp "strip"
+  let prepend ← bytes inp "prepend"
+  let hostOpt ← str inp "hostopt"
+  let tq ← bytes inp "tq"
+  let method ← str inp "method"
+  let client ← bytes inp "path"
+  let hasq ← bool inp "hasq"
+  let query ← bytes inp "query"
+  let host ← str inp "host"
+  let hdr0 ← pairs inp "hdr"
+  let ws ← bool inp "ws"
+  let body ← bytes inp "body"
+  let hdrs := hdr0.map (fun kv => (canonKey kv.1, kv.2)) ++
+    (if ws then [("Upgrade", "websocket"), ("Connection", "Upgrade")] else [])
+  let t : Target := { strip := strip, prepend := prepend, hostOpt := hostOpt, host := "UPSTREAM", rawQuery := tq }
+  -- the implementation's record, canonicalised
+  let implStatus := (impl.getObjValAs? Int "status").toOption.getD (-1)
+  let implHits := (impl.getObjValAs? Int "hits").toOption.getD (-1)
+  let up := (impl.getObjVal? "up").toOption.getD Json.null
+  let sentSha := (impl.getObjValAs? String "sent_bsha").toOption.getD ""
+  let upHdrAll ← if up.isNull then pure [] else kvPairs up "hdr"
+  let upHdr := upHdrAll.filter fun kv => !notCompared.contains kv.1
+  let canonUp : Json :=
+    if up.isNull then Json.null else
+      Json.mkObj [("method", (up.getObjVal? "method").toOption.getD Json.null),
+                  ("uri", (up.getObjVal? "uri").toOption.getD Json.null),
+                  ("host", (up.getObjVal? "host").toOption.getD Json.null),
+                  ("hdr", groupJson upHdr),
+                  ("blen", (up.getObjVal? "blen").toOption.getD Json.null),
+                  ("bsha", (up.getObjVal? "bsha").toOption.getD Json.null)]
+  let canonImpl : Json :=
+    if isPanic impl then Json.mkObj [("panic", true)]
+    else Json.mkObj [("status", implStatus), ("hits", implHits), ("up", canonUp)]
+  match setPath client with
+  | none =>
+    let m := Json.mkObj [("status", (400 : Int)), ("hits", (0 : Int)), ("up", Json.null)]
+    return ({ model := m, agree := m == canonImpl, spec := implHits == 0, nontrivial := false, tag := "bad-request" } : Verdict).toJson
+  | some (path, rawPath) =>
+    let u : URL := { path := path, rawPath := rawPath, rawQuery := query, forceQuery := hasq && query.isEmpty }
+    let r : Req Bytes := { method := method, url := u, host := host, headers := hdrs, body := body }
+    let (m, h) : Json × Via := match serve 0 "" (some t) r with
+      | .noRoute s _ => (Json.mkObj [("status", s), ("hits", (0 : Int)), ("up", Json.null)], .http)
+      | .forward h _ o =>
+        (Json.mkObj [("status", if h == .ws then (101 : Int) else 200), ("hits", (1 : Int)),
+          ("up", Json.mkObj [("method", o.method), ("uri", jb o.url.requestURI), ("host", o.host),
+                             ("hdr", groupJson (upstreamHeaders h o.method o.headers)),
+                             ("blen", (o.body.length : Int)), ("bsha", sentSha)])], h)
+    -- the property's sentences on what the upstream recorded
+    let upMethod := (up.getObjValAs? String "method").toOption.getD ""
+    let upURI := ofStr ((up.getObjValAs? String "uri").toOption.getD "")
+    let upHost := (up.getObjValAs? String "host").toOption.getD ""
+    let upBlen := (up.getObjValAs? Int "blen").toOption.getD (-1)
+    let upBsha := (up.getObjValAs? String "bsha").toOption.getD "?"
+    let (upath, uquery) := splitQuery upURI
+    let isWS := h == .ws
+    let listed := if isWS then [] else connectionListed hdrs
+    -- User-Agent: Go's transport can send one non-empty value only; an empty or repeated one is not counted
+    let uaNorm (l : List (String × String)) : List (String × String) :=
+      let ua := headerGet l "User-Agent"
+      (l.filter (·.1 ≠ "User-Agent")) ++ (if ua ≠ "" then [("User-Agent", ua)] else [])
+    let clientE2E := uaNorm (endToEnd listed hdrs)
+    -- Accept-Encoding: gzip added by the Go transport for its own hop when the client named none is not counted
+    let aeOwn := !isWS && headerGet hdrs "Accept-Encoding" = "" && headerGet hdrs "Range" = "" && method ≠ "HEAD"
+    let upE2E0 := endToEnd [] upHdrAll
+    let upE2E := uaNorm (if aeOwn then upE2E0.erase ("Accept-Encoding", "gzip") else upE2E0)
+    let sPath := pathOK strip prepend client upath
+    let sQuery := uquery.getD [] = expectedQuery tq query
+    let sHost := upHost = expectedHost hostOpt "UPSTREAM" host
+    let sHdr := sameMultiset clientE2E upE2E
+    let sBody := upBlen = (body.length : Int) && upBsha = sentSha
+    let spec := implHits == 1 && upMethod = method && sPath && sQuery && sHost && sHdr && sBody
+    let stripApplies := strip ≠ [] && strip.isPrefixOf path
+    let base := if stripApplies then (if prepend ≠ [] then "strip+prepend" else "strip")
+                else if prepend ≠ [] then (if strip ≠ [] then "nostrip+prepend" else "prepend")
+                else if strip ≠ [] then "nostrip" else "plain"
+    let corner := match expectedPath strip prepend client with
+      | some (_, w) => !startsWithSlash w
+      | none => false
+    let tag :=
+      if !validEncoded client then "path-raw-invalid-byte"
+      else base ++ (if isWS then "+ws" else "") ++ (if rawPath ≠ [] then "+enc" else "")
+           ++ (if corner then "+encslash" else "")
+           ++ (if isWS && headerGet hdrs "User-Agent" = "" then "+noua" else "")
+    let nontrivial := stripApplies || prepend ≠ [] || hostOpt ≠ "" || tq ≠ [] || rawPath ≠ []
+    return ({ model := m, agree := m == canonImpl, spec := spec, nontrivial := nontrivial, tag := tag } : Verdict).toJson
+
+/-! ### c07.body -/
+
+def bodyH : Handler := fun inp impl => do
+  let method ← str inp "method"
+  let rstatus ← int inp "rstatus"
+  let reqlen ← int inp "reqlen"
+  let chunks ← arr inp "chunks"
+  let rchunked ← bool inp "rchunked"
+  let g (k : String) : Json := (impl.getObjVal? k).toOption.getD Json.null
+  if isPanic impl then
+    return ({ model := Json.null, agree := false, spec := false, tag := "panic" } : Verdict).toJson
+  let repHdr ← kvPairs impl "rep_hdr"
+  let gotHdr ← kvPairs impl "got_hdr"
+  -- model: the frame — the request reaches the upstream once with the client's method and body, the reply
+  -- reaches the client with the upstream's status, end-to-end headers and body
+  let m := Json.mkObj [("hits", (1 : Int)), ("up_method", method), ("up_len", g "sent_len"), ("up_sha", g "sent_sha"),
+                       ("status", rstatus), ("got_len", g "rep_len"), ("got_sha", g "rep_sha"), ("got_hdr", groupJson repHdr)]
+  let ci := Json.mkObj [("hits", g "hits"), ("up_method", g "up_method"), ("up_len", g "up_len"), ("up_sha", g "up_sha"),
+                        ("status", g "status"), ("got_len", g "got_len"), ("got_sha", g "got_sha"), ("got_hdr", groupJson gotHdr)]
+  let spec := g "hits" == (1 : Int) && g "up_method" == Json.str method &&
+    g "up_len" == g "sent_len" && g "up_sha" == g "sent_sha" && g "sent_len" == Json.num reqlen &&
+    g "status" == Json.num rstatus && g "got_len" == g "rep_len" && g "got_sha" == g "rep_sha" &&
+    sameMultiset repHdr gotHdr
+  let big := reqlen > 65536 || (impl.getObjValAs? Int "rep_len").toOption.getD 0 > 65536
+  let tag := (if chunks.size > 0 then "req-chunked" else if reqlen > 0 then "req-cl" else "req-empty") ++
+             (if rchunked then "/rep-chunked" else "/rep-cl") ++ (if big then "/big" else "")
+  return ({ model := m, agree := m == ci, spec := spec,
+            nontrivial := reqlen > 0 || (impl.getObjValAs? Int "rep_len").toOption.getD 0 > 0, tag := tag } : Verdict).toJson
+
+/-! ### c07.noroute -/
+
+/-- what `net/http`'s server makes of `WriteHeader(status)` followed by `io.WriteString(w, page)` (assumed):
+a 1xx status other than 101 goes out as an interim response and the page follows under 200; no body with
+101/204/304 or on HEAD -/
+def renderNoRoute (method : String) (status : Int) (page : String) : List Int × Int × String :=
+  let interim := 100 ≤ status && status ≤ 199 && status ≠ 101
+  let final := if interim then 200 else status
+  let bodyOK := method ≠ "HEAD" && final ≠ 101 && final ≠ 204 && final ≠ 304
+  (if interim then [status] else [], final, if bodyOK then page else "")
+
+def norouteH : Handler := fun inp impl => do
+  let status ← int inp "status"
+  let html ← str inp "html"
+  let method ← str inp "method"
+  let isMatch ← bool inp "match"
+  let r : Req Unit := { method := method, url := {}, host := "", headers := [], body := () }
+  let t : Option Target := if isMatch then some { host := "UPSTREAM" } else none
+  let ci := if isPanic impl then Json.mkObj [("panic", true)] else impl
+  let mk (interim : List Int) (st : Int) (body : String) (hits : Int) : Json :=
+    Json.mkObj [("status", st), ("interim", Json.arr (interim.map (fun (i : Int) => (i : Json))).toArray), ("body", body), ("hits", hits)]
+  match serve status html t r with
+  | .noRoute s page =>
+    let (interim, final, body) := renderNoRoute method s page
+    let m := mk interim final body 0
+    -- the sentence: configured status (404 when outside 100..999), the page (where HTTP lets a body through),
+    -- and no upstream contacted
+    let want := if 100 ≤ status ∧ status ≤ 999 then status else 404
+    let gotStatus := (impl.getObjValAs? Int "status").toOption.getD (-1)
+    let gotInterim := ((arr impl "interim").toOption.getD #[]).toList
+    let gotBody := (impl.getObjValAs? String "body").toOption.getD "?"
+    let informational := 100 ≤ want && want ≤ 199 && want ≠ 101
+    let statusOK := if informational then gotInterim == [(want : Json)] else gotStatus == want
+    let pageOK := gotBody == html || (gotBody == "" && (method == "HEAD" || want == 101 || want == 204 || want == 304))
+    let spec := statusOK && pageOK && (impl.getObjValAs? Int "hits").toOption.getD (-1) == 0
+    let tag := if status < 100 then "below-range" else if status > 999 then "above-range"
+               else if informational then "informational-status" else if html == "" then "in-range-empty-page" else "in-range"
+    return ({ model := m, agree := m == ci, spec := spec, nontrivial := status < 100 || status > 999 || html ≠ "", tag := tag } : Verdict).toJson
+  | .forward _ _ _ =>
+    let m := mk [] 200 (if method == "HEAD" then "" else "ok") 1
+    return ({ model := m, agree := m == ci, spec := (impl.getObjValAs? Int "hits").toOption.getD (-1) == 1,
+              nontrivial := false, tag := "control-routed" } : Verdict).toJson
+
+/-! ### c07.escape -/
+
+def escapeH : Handler := fun inp impl => do
+  let mode ← str inp "mode"
+  let a ← bytes inp "a"
+  let b ← bytes inp "b"
+  let q ← bytes inp "q"
+  let f ← bool inp "f"
+  let mk (ok : Bool) (u : URL) : Json :=
+    if ok then Json.mkObj [("ok", true), ("path", jb u.path), ("rawpath", jb u.rawPath), ("esc", jb u.escapedPath), ("uri", jb u.requestURI)]
+    else Json.mkObj [("ok", false), ("path", ""), ("rawpath", ""), ("esc", ""), ("uri", "")]
+  let ci := if isPanic impl then Json.mkObj [("panic", true)] else impl
+  if mode == "parse" then
+    match setPath a with
+    | none =>
+      let m := mk false {}
+      return ({ model := m, agree := m == ci, spec := !isPanic impl, nontrivial := true, tag := "parse-error" } : Verdict).toJson
+    | some (p, rp) =>
+      let u : URL := { path := p, rawPath := rp }
+      let m := mk true u
+      -- round trip: what EscapedPath returns decodes to Path again
+      let esc := ofStr ((impl.getObjValAs? String "esc").toOption.getD "")
+      let spec := unescape esc = some (ofStr ((impl.getObjValAs? String "path").toOption.getD "?"))
+      return ({ model := m, agree := m == ci, spec := spec, nontrivial := rp ≠ [],
+                tag := if rp = [] then "parse-canonical" else if validEncoded a then "parse-rawpath" else "parse-rawpath-invalid" } : Verdict).toJson
+  else
+    let u : URL := { path := a, rawPath := b, rawQuery := q, forceQuery := f }
+    let m := mk true u
+    let esc := ofStr ((impl.getObjValAs? String "esc").toOption.getD "")
+    let spec := unescape esc = some a || a = [STAR]
+    let used := u.escapedPath = b && b ≠ []
+    return ({ model := m, agree := m == ci, spec := spec, nontrivial := b ≠ [],
+              tag := if b = [] then "esc-norawpath" else if used then "esc-rawpath-used" else "esc-rawpath-rejected" } : Verdict).toJson
+
+def streams : List (String × Handler) :=
+  [("c07.url", urlH), ("c07.body", bodyH), ("c07.noroute", norouteH), ("c07.escape", escapeH)]
 end Fabio.Driver.C07
